@@ -4,6 +4,18 @@ use crate::fields::{
 };
 use crate::lossless::relations::Relations;
 
+#[cfg(feature = "chrono")]
+/// Parse a date as found in Release files: RFC 2822, but with the time zone
+/// written "UTC" (which RFC 2822 itself does not know).
+fn parse_release_date(s: &str) -> Option<chrono::DateTime<chrono::FixedOffset>> {
+    let s = s.trim();
+    let normalized = match s.strip_suffix(" UTC") {
+        Some(rest) => format!("{} +0000", rest),
+        None => s.to_string(),
+    };
+    chrono::DateTime::parse_from_rfc2822(&normalized).ok()
+}
+
 /// A source package in the APT package manager.
 pub struct Source(deb822_lossless::Paragraph);
 
@@ -842,7 +854,7 @@ impl Release {
         self.0
             .get("Date")
             .as_ref()
-            .map(|s| chrono::DateTime::parse_from_rfc2822(s).unwrap())
+            .and_then(|s| parse_release_date(s))
     }
 
     #[cfg(feature = "chrono")]
@@ -857,7 +869,7 @@ impl Release {
         self.0
             .get("Valid-Until")
             .as_ref()
-            .map(|s| chrono::DateTime::parse_from_rfc2822(s).unwrap())
+            .and_then(|s| parse_release_date(s))
     }
 
     #[cfg(feature = "chrono")]
